@@ -87,6 +87,9 @@ func doMatchMatches(expression *grammar.MatchExpression, value reflect.Value) (b
 		return false, fmt.Errorf("Value of type %s is not convertible to []byte", value.Type())
 	}
 
+	// The syntax tree is shared by every (possibly concurrent) evaluation, so
+	// it is only read here: the compiled form was cached by
+	// compileRegexps when the evaluator was created.
 	var re *regexp.Regexp
 	var ok bool
 	if expression.Value.Converted != nil {
@@ -98,10 +101,35 @@ func doMatchMatches(expression *grammar.MatchExpression, value reflect.Value) (b
 		if err != nil {
 			return false, fmt.Errorf("Failed to compile regular expression %q: %v", expression.Value.Raw, err)
 		}
-		expression.Value.Converted = re
 	}
 
 	return re.Match(value.Convert(byteSliceTyp).Interface().([]byte)), nil
+}
+
+// compileRegexps caches the compiled regular expression of every matches /
+// not matches operator in a freshly parsed syntax tree that no evaluation can
+// see yet. Patterns that do not compile are left alone, the error is reported
+// when they are evaluated.
+func compileRegexps(ast grammar.Expression) {
+	switch node := ast.(type) {
+	case *grammar.UnaryExpression:
+		compileRegexps(node.Operand)
+	case *grammar.BinaryExpression:
+		compileRegexps(node.Left)
+		compileRegexps(node.Right)
+	case *grammar.CollectionExpression:
+		compileRegexps(node.Inner)
+	case *grammar.MatchExpression:
+		if node.Value == nil {
+			return
+		}
+		switch node.Operator {
+		case grammar.MatchMatches, grammar.MatchNotMatches:
+			if re, err := regexp.Compile(node.Value.Raw); err == nil {
+				node.Value.Converted = re
+			}
+		}
+	}
 }
 
 func doMatchEqual(expression *grammar.MatchExpression, value reflect.Value) (bool, error) {
